@@ -161,6 +161,11 @@ def run_check(pid, tier, seed, replay, t0):
     # 6. evidence
     cov = dict(res.get("coverage", {}))
     level = getattr(cfg, "LEVEL", "proof")
+    try:
+        import registry as _reg
+        level = _reg.CHECKS.get(pid, {}).get("category", level)
+    except Exception:  # noqa
+        pass
     n_obl = len(theorems) + len(res.get("extra_obligations", []))
     n_dis = len(axioms) + len([o for o in res.get("extra_obligations", []) if o.get("ok")])
     if level == "proof":
